@@ -11,16 +11,27 @@ Section Keep.
 Variable hash : algo -> bytes -> bytes.
 Hypothesis HL : HashLen hash.
 
-(* a step keeps the file [d] at [l]: it does not name [l] at all, or it renames a file with the same bytes over it *)
+(* a step keeps the file [d] at [l]: it does not name [l] at all, or it renames a file with the same bytes over it
+   (creating a fresh temp file never names an existing location) *)
 Definition ksafe (l : loc) (d : bytes) (c : sys) (f : fs) : Prop :=
   match c with
   | Rename src dst => src <> l /\ (dst = l -> lookup f src = Some (File d))
+  | CreateTmp => True
   | _ => ~ may_touch c l
   end.
 Definition ksafe' (l : loc) (c : sys) : Prop :=
   match c with Rename src dst => src <> l /\ dst <> l | _ => ~ may_touch c l end.
 Lemma ksafe'_ksafe l d c f : ksafe' l c -> ksafe l d c f.
 Proof. destruct c; cbn; auto. intros [H1 H2]. split; [exact H1|]. intros E. contradiction. Qed.
+
+Lemma keep_createtmp l d f :
+  lookup f l = Some (File d) -> lookup (snd (exec CreateTmp f)) l = Some (File d) /\ mid_states CreateTmp f = [].
+Proof.
+  intros Hl. split; [|reflexivity]. unfold exec. destruct (is_dir f tmp_dir); [|exact Hl]. cbn [snd].
+  assert (InCache (tmp_dir ++ [fresh f]) <> l) as Hne.
+  { intros E. pose proof (fresh_absent hash f) as Hf. rewrite E in Hf. congruence. }
+  rewrite lookup_update_neq by congruence. exact Hl.
+Qed.
 
 Lemma keep_step l d c f :
   lookup f l = Some (File d) -> ksafe l d c f ->
@@ -31,6 +42,7 @@ Proof.
   { intros Hn. destruct (exec_frame c f l Hn) as [H1 H2]. split; [rewrite H1; exact Hl|].
     eapply Forall_impl; [|exact H2]. cbn. intros g Hg. rewrite Hg. exact Hl. }
   destruct c; try (apply Hfr; exact Hs).
+  { destruct (keep_createtmp l d f Hl) as [H1 H2]. rewrite H2. split; [exact H1|constructor]. }
   cbn [ksafe] in Hs. destruct Hs as [Hsrc Hdst].
   destruct (loc_eq_dec dst l) as [->|Hne].
   - specialize (Hdst eq_refl). split; [|constructor].
